@@ -633,12 +633,12 @@ class ExcelInPython:
             else:
                 range_and_criteria_zip[-1].append(i)
 
+        selected = [bool(count_condition(i)) for i in self._when_cell_is_empty_cast_to_zero(count_range)]
         for [_range, criteria] in range_and_criteria_zip:
             for i in range(len(_range)):
                 if not criteria(_range[i]):
-                    count_range[i] = None
-        count_range = [i if count_condition(i) else None for i in count_range]
-        return len(list(filter(None, count_range)))
+                    selected[i] = False
+        return selected.count(True)
         
     def _network_days(self, date_start: datetime.datetime, date_end: datetime.datetime,
                       holidays: List[List[datetime.datetime]] | None = None):
